@@ -22,6 +22,10 @@ def run(tier, replay=None):
             return c.finish()
         raise vlib.ToolError("tlapm failed: " + p.stdout[-2000:])
     c.cov["proof_obligations_discharged"] = int(m.group(1)); c.cov["evaluations"] = int(m.group(1))
+    c.cov["obligations"] = int(m.group(1)); c.cov["discharged"] = int(m.group(1))
+    c.cov["checker_cmd"] = "cd specs/proofs && tlapm --threads 8 --cleanfp InternerProof.tla"
+    c.cov["trusted_base"] = ["tlapm 1.6.0-pre and its back ends (SMT/z3, Zenon, Isabelle, PTL/ls4)", "the TLA+ module InternerProof.tla as a faithful abstraction of src/interner.rs (bound to the code by C12, not by this proof)"]
+    c.sample({"theorems": ["Spec => []Bijective", "step form of AppendOnly"]})
     c.cov["rule"] = "tlapm (SMT / Zenon / Isabelle back ends, PTL for the temporal step): Spec => []Bijective and the step form of AppendOnly for an arbitrary value set"
     shutil.rmtree(os.path.join(d, ".tlacache"), ignore_errors=True)
     return c.finish()
